@@ -5,7 +5,7 @@ From Verif.Lib Require Import QRound PyNum.
 From Verif.Model Require Import Sampler SamplerMat.
 From Verif.Gen Require Sampler.
 From Verif.Bridge Require Import Sampler.
-From Verif.Proofs Require Import Credit Sampler SamplerMat SamplerSq.
+From Verif.Proofs Require Import Credit Sampler SamplerMat SamplerDet SamplerSq.
 Import ListNotations.
 Open Scope Q_scope.
 
@@ -113,7 +113,6 @@ Proof.
   - simpl. lra.
   - intros _. constructor.
     + vm_compute. split; reflexivity.
-    + discriminate.
     + intros [H _]. vm_compute in H. discriminate.
     + vm_compute. split; reflexivity.
     + intros _. reflexivity.
@@ -148,7 +147,6 @@ Proof.
     + discriminate.
     + intros _ k Hk _. destruct k as [|[|k]]; [| | lia]; reflexivity.
     + intros _. vm_compute. lia.
-    + discriminate.
   - intros X H. vm_compute in H. inversion H; subst X. clear H. split.
     + vm_compute. reflexivity.
     + vm_compute. discriminate.
